@@ -55,6 +55,8 @@ func main() {
 		stagePaths(w, r)
 	case "canary":
 		stageCanary(w, r)
+	case "canary3": // the host-model part of the canary stage alone (development aid)
+		stageCanary3(w, r)
 	default:
 		fmt.Fprintln(os.Stderr, "unknown stage")
 		os.Exit(2)
